@@ -52,6 +52,14 @@ def job_list(ctx, composite_only=False, cap_quick=2500, cap_thorough=20000):
               "SingleProcessMediator": {"scheduler": rng.choice(["heap_scheduler", "list_scheduler"])}}
         gen.append({"ini": CFG + base, "seed": ctx.seed * 1000 + 200 + k, "max_legs": cap, "kind": "generated", "overrides": ov,
                     "pool": n})
+    # dense cell systems (surplus units, several atoms per cell) and soft spheres in cubic / non-cubic boxes with a cell system
+    from harness import genconfigs
+    for k in range(ctx.n(4, 12)):
+        j = genconfigs.dense_cells(rng, CFG)
+        gen.append({**j, "seed": ctx.seed * 1000 + 300 + k, "max_legs": cap, "kind": "generated-dense"})
+    for k in range(ctx.n(5, 16)):
+        j = genconfigs.soft_spheres_cells(rng)
+        gen.append({**j, "seed": ctx.seed * 1000 + 400 + k, "max_legs": cap, "kind": "generated-cuboid"})
     jobs += gen
     if composite_only:
         jobs = [j for j in jobs if "coulomb_atoms" not in j["ini"]]
@@ -75,9 +83,47 @@ def fix_pools(jobs, root):
     return jobs
 
 
-def traces(ctx, **kw):
+def resumed_traces(ctx):
+    """dump a few dumping variants of shipped configurations at every dumping event and resume each dump through the
+    repository's resume.main(): the resumed runs are further event histories every run-level property must hold on"""
+    import os, tempfile, shutil
+    from harness.props import c19
+    rng = ctx.rng
+    work = tempfile.mkdtemp(prefix="jfdumps_", dir=os.path.dirname(ctx.root))
+    out = []
+    try:
+        jobsA = []
+        for n, (ini, t_end) in enumerate([(CFG + "coulomb_atoms/power_bounded_dump.ini", 9.0), (CFG + "coulomb_atoms/cell_veto.ini", 2.5),
+                                          (CFG + "dipoles/dipole_motion.ini", 7.0)][:ctx.n(2, 3)]):
+            for sched in (["heap_scheduler", "list_scheduler"] if n == 0 else ["heap_scheduler"]):
+                dd = os.path.join(work, f"A{len(jobsA)}")
+                os.makedirs(dd)
+                ov = c19.merge({"FinalTimeEndOfRunEventHandler": {"end_of_run_time": t_end}, "SingleProcessMediator": {"scheduler": sched}},
+                               c19.dumping_overrides(ctx.root, ini, round(t_end / rng.choice([2.3, 3.1, 4.4]), 4)))
+                ov = c19.merge(ov, {"DumpingOutputHandler": {"filename": f"dumpR{len(jobsA)}_{os.getpid()}.dat"}})
+                if n == 0 and sched == "heap_scheduler":
+                    # several atoms: handlers of one pool are trashed and re-used at different times, so the scheduler holds
+                    # lazily deleted entries of handlers that are NOT running at the dump
+                    k = rng.randint(4, 7)
+                    ov = c19.merge(ov, {"RandomInputHandler": {"number_of_root_nodes": k}, "Coulomb": {"number_event_handlers": k}})
+                jobsA.append({"ini": ini, "seed": ctx.seed * 1000 + 700 + n, "max_legs": 40000, "dump_dir": dd, "overrides": ov, "light": True})
+        trsA = runs.run_jobs(ctx.root, jobsA)
+        jobsB = []
+        for A in trsA:
+            for dk in (A.get("dumps") or [])[:3]:
+                jobsB.append({"ini": A["meta"].get("ini", "?"), "resume": dk["file"], "max_legs": ctx.n(1500, 8000), "kind": "resumed",
+                              "seed": A.get("job", {}).get("seed", 0)})
+        out = runs.run_jobs(ctx.root, jobsB) if jobsB else []
+    finally:
+        shutil.rmtree(work, ignore_errors=True)
+    return out
+
+
+def traces(ctx, with_resumed=False, **kw):
     jobs = fix_pools(job_list(ctx, **kw), ctx.root)
     trs = runs.run_jobs(ctx.root, jobs)
+    if with_resumed:
+        trs += resumed_traces(ctx)
     bad = [t for t in trs if not t["legs"]]
     for t in bad:
         ctx.count("trace-failed:" + str(t["end"])[:60])
@@ -161,6 +207,11 @@ def replay_point_masses(ctx, tr):
         bases = next(tg["handler_bases"] for tg in meta["taggers"] if tg["tag"] == meta["handlers"][leg["chosen"]][0])
         mov_pre = [k for k in range(n) if pre[(k,)][1] is not None]
         mov_post = [k for k in range(n) if post[(k,)][1] is not None]
+        if not leg["out"]:
+            # empty out-state (dumping event): nothing is committed, the model state stays as it is
+            ctx.count("replay:empty-out-state")
+            pre = post
+            continue
         tq = f"{f2b(t[0])} {f2b(t[1])}"
         # the handler computes its out-state from its *stored* in-state (a copy taken when the candidate was computed);
         # where that differs from the global state (the unit was time-sliced by a sampling event in between) the model
